@@ -221,6 +221,9 @@ def content(model):
             "notes": _freeze(m.notes),
             "annotation": _freeze(m.annotation),
             "reactions": tuple(sorted(r.id for r in m.reactions)),
+            # references to reactions that are not part of this model (e.g. the free
+            # reaction the metabolite object was taken from)
+            "outside_reactions": tuple(sorted(r.id for r in m.reactions if getattr(r, "_model", None) is not model)),
         }
     genes = {}
     for g in model.genes:
@@ -230,6 +233,7 @@ def content(model):
             "notes": _freeze(g.notes),
             "annotation": _freeze(g.annotation),
             "reactions": tuple(sorted(r.id for r in g.reactions)),
+            "outside_reactions": tuple(sorted(r.id for r in g.reactions if getattr(r, "_model", None) is not model)),
         }
     groups = {}
     for g in model.groups:
@@ -491,8 +495,8 @@ def snapshot(model, with_lp=True):
     return s
 
 
-def snapshot_diff(a, b, ignore=("order",), lp_rel=REL):
-    out = content_diff(a["content"], b["content"], ignore=ignore)
+def snapshot_diff(a, b, ignore=("order",), lp_rel=REL, content_rel=0.0):
+    out = content_diff(a["content"], b["content"], ignore=ignore, rel=content_rel)
     if "lp" in a and "lp" in b:
         out += ["LP " + d for d in lp_diff(a["lp"], b["lp"], rel=lp_rel)]
     out += ["xref(after) " + e for e in b["xref"] if e not in a["xref"]]
